@@ -365,6 +365,22 @@ pub fn drive(info: &mut ThreadAllocInfo, xs: &Vec<XOp>) -> (ops: Ghost<Seq<Op>>)
 
 
 def build(S: Sources) -> Unit:
+    errs = []
+    vfiles = guarded(lambda: verus_files(S), errs, [])
+    return Unit(
+        property_id="C10",
+        verus=vfiles,
+        kani=kani_spec(),
+        build_errors=errs,
+        undecided_clauses=[
+            "operations performed on other threads never change the tally: rests on thread_local! giving each thread its own slot (language semantics, no contract)",
+            "arithmetic wrap-around beyond the stated no-overflow preconditions (documented as assumed by the crate)",
+        ],
+        assumptions=["64-bit target: usize is 8 bytes and condtype::num::Usize64/Isize64 are u64/i64 (checked on the compiled code by Kani harness verif_c10::count_types)"],
+    )
+
+
+def verus_files(S: Sources):
     a = S(ALLOC)
     secs = []
     secs.append(ghost("target", "global size_of usize == 8;", kind="glue"))
@@ -437,7 +453,7 @@ def build(S: Sources) -> Unit:
                         (new_size.wrapping_sub(old_size)) as isize == (new_size as isize) - (old_size as isize)) by (bit_vector);
                     assert(diff as int == new_size as int - old_size as int);
                 }
-            """, 1)], clauses="""
+            """, 1, "hint")], clauses="""
             requires
                 inv(old(self)@),
                 fits(old(self)@, Op::Realloc { old_size: old_size as nat, new_size: new_size as nat, as_shrink: new_size < old_size }),
@@ -461,16 +477,7 @@ def build(S: Sources) -> Unit:
 
     canary = [s for s in secs if s.kind != "lemma"] + [ghost("canaries", CANARIES, kind="lemma")]
 
-    return Unit(
-        property_id="C10",
-        verus=[VerusFile("c10_tally", secs), VerusFile("c10_canary", canary, expect_fail=True)],
-        kani=kani_spec(),
-        undecided_clauses=[
-            "operations performed on other threads never change the tally: rests on thread_local! giving each thread its own slot (language semantics, no contract)",
-            "arithmetic wrap-around beyond the stated no-overflow preconditions (documented as assumed by the crate)",
-        ],
-        assumptions=["64-bit target: usize is 8 bytes and condtype::num::Usize64/Isize64 are u64/i64 (checked on the compiled code by Kani harness verif_c10::count_types)"],
-    )
+    return [VerusFile("c10_tally", secs), VerusFile("c10_canary", canary, expect_fail=True)]
 
 
 # Each canary must FAIL: it asserts false after calling a contracted function from a
